@@ -1800,6 +1800,11 @@ class Evaluator:
         if isinstance(fn, Opaque):
             if fn.name.startswith(("logging", "logger", "warnings")) or ".logger." in fn.name:
                 return None          # logging calls return None
+            if fn.name in ("pandas.isnull", "pandas.isna", "pandas.notnull", "pandas.notna") and len(args) == 1:
+                # pandas' missing-value test on a float array / scalar: the NaN flag (A4)
+                neg_ = fn.name.endswith(("notnull", "notna"))
+                f_ = (lambda x: bnot(nan_of(x))) if neg_ else (lambda x: nan_of(x))
+                return self.map1(f_, args[0], kind="b") if is_array(args[0]) else f_(args[0])
             if fn.name == "numpy.dtype":
                 return "dtype(%s)" % (getattr(args[0], "name", args[0]),)
             if fn.name in ("numpy.linalg.norm",):
